@@ -528,6 +528,13 @@ func genForeign(r *hx.Rng) *gScen {
 	xt := []int{0, 1, 4, 16, 3}[r.Intn(5)] // T0, T1, T4 (the pointer-slot types), T16, T3: all implement Ifc0
 	x := g.addNode(xt, r.P(1, 3))
 	g.sc.nodes[x].early, g.sc.nodes[x].after = foreignVer, foreignVer
+	fnMode := r.Intn(4) // 1: func-kinded substitute at both timings, two different closures; 2: the same one; 3: after only
+	switch fnMode {
+	case 1:
+		g.sc.nodes[x].early, g.sc.nodes[x].after = fnVer, fnVer+1
+	case 2:
+		g.sc.nodes[x].early, g.sc.nodes[x].after = fnVer, fnVer
+	}
 	nh := 1 + r.Intn(3)
 	ptrSlot := map[int]string{0: "P0", 1: "P1", 4: "P4"}
 	for j := 0; j < nh; j++ {
@@ -564,7 +571,7 @@ func genForeign(r *hx.Rng) *gScen {
 			g.randomSlots(h, 1+r.Intn(3))
 			g.sc.nodes[h].slots["X0b"] = "w" + g.nameOf(x) + opt
 		}
-		if r.P(1, 2) { // close a cycle X -> h
+		if r.P(1, 2) || fnMode == 1 { // close a cycle X -> h
 			g.edgeByName(x, h, r.P(1, 4))
 		}
 	}
